@@ -234,6 +234,17 @@ def probes(rep, r, n):
                 if not same(ei, ef, max(1.0, abs(float(ef)) if np.isfinite(ef) else 1.0), rel=1e-12):
                     rep.violation(f'integer-error-map:{np.dtype(dt).name}', f'aperture_sum_err = {ei} for a {np.dtype(dt).name} error map but {ef} for the same '
                                   'values as float64', dict(sig_case(c), error=erri.tolist(), error_dtype=np.dtype(dt).name))
+            # images held in integer / float32 dtypes: the weights stay fractional (float64) whatever the dtype of the image (seed C02-r12
+            # cast the weights to the image dtype)
+            if k % 3 == 1:
+                dti = [np.uint16, np.int32, np.float32][(k // 3) % 3]
+                di = np.round(np.abs(data) * 8).astype(dti)
+                si = ap.do_photometry(di, **kw)[0][0]
+                sf = ap.do_photometry(di.astype(np.float64), **kw)[0][0]
+                rep.count(f'integer-image-probe:{np.dtype(dti).name}')
+                if not same(si, sf, max(1.0, abs(float(sf)) if np.isfinite(sf) else 1.0), rel=1e-12 if dti is not np.float32 else 1e-5):
+                    rep.violation(f'image-dtype:{np.dtype(dti).name}', f'aperture_sum = {si} for a {np.dtype(dti).name} image but {sf} for the same values as float64',
+                                  dict(sig_case(c), image=di.tolist(), image_dtype=np.dtype(dti).name))
             # batch == singles; list of apertures == individually; NDData == arrays
             pos = [(c['p']['cx'], c['p']['cy']), (c['p']['cx'] + 1.5, c['p']['cy'] - 2.0), (-30.0, 4.0)]
             ap3 = CircularAperture(pos, 1.5)
